@@ -526,6 +526,16 @@ var fixedScenarios = [][]vspec{
 	},
 }
 
+// fatScenario (record mode with -fat): three storage leaves in the first state, rewritten,
+// toggled back and forked afterwards.
+var fatScenario = []vspec{
+	{0, []edit{{Acct: 0, Kind: 0, Slot: 0, Val: 1}, {Acct: 0, Kind: 0, Slot: 1, Val: 2}, {Acct: 2, Kind: 0, Slot: 2, Val: 5}, {Acct: 1, Kind: 1}}},
+	{1, []edit{{Acct: 0, Kind: 0, Slot: 0, Val: 2}}},
+	{2, []edit{{Acct: 0, Kind: 0, Slot: 0, Val: 1}, {Acct: 2, Kind: 0, Slot: 2, Val: 6}}},
+	{1, []edit{{Acct: 1, Kind: 5, From: 0}}},
+	{3, []edit{{Acct: 0, Kind: 2}}},
+}
+
 // randomScenario draws a small history; maxNodes bounds the DAG so that TLC stays exhaustive.
 func randomScenario(r *rand.Rand, nver, maxNodes int) (*world, []vspec) {
 	return randomScenarioN(r, nver, 4, maxNodes, 2+r.Intn(2), 2, 2)
